@@ -5,6 +5,7 @@ from .. import env, hyp, optable as O, ed25519_ref as E
 from ..recorder import push
 from .c02 import msg_of
 from hypothesis import strategies as st
+from ..gen import dict_order as gen_dict_order
 from nacl.signing import SigningKey
 
 F, T = env.F, env.T
@@ -214,6 +215,7 @@ def chain_case(draw):
               'can': True} for _ in range(n)]
     links[-1]['can'] = draw(st.booleans())
     fields = {'sigfield%d' % i: draw(st.binary(min_size=1, max_size=8)) for i in range(1, 9) if draw(st.integers(0, 2)) == 0} or {'sigfield1': b'm'}
+    fields = gen_dict_order(draw, fields)
     allowed = draw(st.sampled_from([0, 0, 1, 0x81, 0xff]))
     case = {'check': 'chain', 'tag': draw(st.binary(min_size=1, max_size=2)), 'links': links, 't': t, 'now': max(0, now), 'thr': thr,
             'fields': fields, 'allowed': allowed, 'flag': draw(st.sampled_from([0, allowed, allowed & 1])),
